@@ -317,7 +317,10 @@ impl World {
             }
             Op::DropHandle(_) => "ok".into(),
             Op::Retain(ids) => {
-                // only generated when no removed region is held
+                // refused as a whole when a region to remove is still held (fix 881ef86)
+                if self.reference.keys().any(|k| !ids.contains(k) && held(self, k)) {
+                    return "err:RegionStillReferenced".into();
+                }
                 self.reference.retain(|k, _| ids.contains(k));
                 "ok".into()
             }
@@ -413,7 +416,7 @@ impl World {
     }
 
     /// C01 oracle: every live region's name, length and bytes equal the reference.
-    fn check_contents(&self) -> Option<String> {
+    pub fn check_contents(&self) -> Option<String> {
         let db = self.db();
         let mut live: Vec<u64> = db.regions().id_to_index().keys().filter_map(|k| k.trim_start_matches('r').parse().ok()).collect();
         live.sort();
@@ -436,7 +439,7 @@ impl World {
     }
 
     /// C02 oracle on the real allocator state.
-    fn check_extents(&self) -> Option<String> {
+    pub fn check_extents(&self) -> Option<String> {
         let db = self.db();
         let layout = db.layout();
         let regions = db.regions();
@@ -574,8 +577,9 @@ impl Gen {
                 if held.is_empty() { Op::Flush } else { Op::DropHandle(*self.rng.pick(&held)) }
             }
             75..=76 => {
-                // retain: never removes a held region (its outcome would depend on hash-map order)
-                let keep: Vec<u64> = live.iter().copied().filter(|i| w.handles.contains_key(i) || self.rng.chance(6, 10)).collect();
+                // retain: mostly keeps held regions; one time in four it may try to drop a held one (refused)
+                let strict = self.rng.chance(3, 4);
+                let keep: Vec<u64> = live.iter().copied().filter(|i| (strict && w.handles.contains_key(i)) || self.rng.chance(6, 10)).collect();
                 Op::Retain(keep)
             }
             77..=88 => Op::Flush,
@@ -632,6 +636,20 @@ fn run_case(cid: &str, min_len: u64, ops: Option<Vec<Op>>, g: Option<&mut Gen>, 
         }
         if let Some(v) = w.check_contents() {
             viol.push(format!("C01:contents-differ-from-reference-after-{opk} step={step} op={} {v}", op.show()));
+            if matches!(op, Op::Compact) {
+                viol.push(format!("C12:compact-changed-readable-bytes step={step} {v}"));
+            }
+        }
+        if matches!(op, Op::Compact) && got.starts_with("ok") {
+            // C12: compaction changes neither the placement of any live region nor the file's logical length
+            let post: BTreeMap<u64, (u64, u64)> = w.db().regions().index_to_region().iter().flatten().map(|r| { let m = r.meta(); (r.index() as u64, (m.start() as u64, m.reserved() as u64)) }).collect();
+            if post != pre_regions {
+                viol.push(format!("C12:compact-moved-or-resized-a-region step={step}"));
+            }
+            let f0: u64 = before.split(" F").nth(1).and_then(|x| x.split(' ').next()).and_then(|x| x.parse().ok()).unwrap_or(0);
+            if f0 != w.db().file_len() as u64 {
+                viol.push(format!("C12:compact-changed-file-length step={step}"));
+            }
         }
         if let Some(v) = w.check_extents() {
             viol.push(format!("C02:{} step={step} op={}", v.replacen(' ', "-after-".to_string().as_str(), 0), op.show()));
